@@ -157,7 +157,7 @@ class SymStr:
 
 
 def _needs_symset(e):
-    if is_sym(e) or isi(e, Cases):
+    if is_sym(e) or isi(e, Cases) or getattr(_real["type"](e), "_pyvc_proxy", False):
         return True
     if isi(e, (int, str, bytes, float, type(None), bool)):
         return False
@@ -470,7 +470,16 @@ def hash_(x):
         f = z3.Function(f"tuplehash{len(parts)}", *([z3.IntSort()] * (len(parts) + 1)))
         return lift(f(*[to_term(p) for p in parts]))
     if isi(x, Seq):
-        raise Unsupported("hash of an abstract sequence")
+        # bag abstraction (S7): the hash of a child list is a function of the bag of its elements' hashes
+        mix = z3.Function("hashmix", z3.IntSort(), z3.IntSort())
+        total = seq_sum(x, lambda e: SInt(mix(to_term(hash_(e)))))
+        return SInt(z3.Function("seqhash", z3.IntSort(), z3.IntSort())(to_term(total)))
+    if getattr(tx, "_pyvc_proxy", False):
+        from .folds import unwrap
+        x = unwrap(x)
+        if hasattr(x, "pyhash"):
+            return x.pyhash()
+        return hash_(x)
     if tx is str and have_ctx() and getattr(ctx(), "symbolic_ids", False):
         return SInt(z3.Function("strhash", z3.IntSort(), z3.IntSort())(intern_id(x).t))
     h = getattr(tx, "__hash__", None)
